@@ -232,6 +232,73 @@ func checkC07(c *core.Ctx) {
 		}
 	})
 
+	// durations from the machine-word family of C02 (denominators of 30..64 bits, lengths from a fraction of a tick
+	// to thousands of ticks, next to half ticks): every control event after such an instance must still sit at the
+	// exact tick
+	c.Stream("oddlengths", c.N(1200, 20000), func(i int, r *rand.Rand) {
+		p := model.RandPiece(r, model.GenOpts{MinLen: 3, MaxLen: 7, RestProb: 0.3, SettingProb: 0.5, TextProb: 0.4, KeyChanges: true, MaxDeg: 7})
+		hit := 0
+		for j := range p.Inst[:len(p.Inst)-1] {
+			if j == 0 || r.Intn(2) == 0 {
+				v, _ := wordSizeValues(r, i+j)
+				if r.Intn(6) == 0 {
+					// dyadic values that are exact in float64 while 960 times them is not (C02 `nearhalfsums`)
+					v = [][]model.Frac{{{Num: 4487180253729041, Den: 4503599627370496}}, {{Num: 4243235273913139, Den: 4503599627370496}}, {{Num: 1, Den: 2}, {Num: 775228998357265, Den: 2251799813685248}}}[r.Intn(3)]
+				}
+				p.Inst[j].Values = v
+				hit++
+			}
+		}
+		f := model.Flags{Track: 1 + r.Intn(3)}
+		for _, in := range p.Inst {
+			for _, l := range model.Lengths(960, in.Values) {
+				if l == 0 {
+					// a chord of no length strikes at the same tick as the next one: only the order of the events
+					// of a single track tells them apart
+					f.Track = 1
+				}
+			}
+		}
+		if !p.Effective(f).AllInRange() || !p.TotalBelow(960, 1<<28) {
+			c.Count("skipped", 1)
+			return
+		}
+		if judgeControls(c, "oddlengths", i, p, f, writeOpts{}, getVel(), "") {
+			c.Nontrivial(fmt.Sprintf("oddlengths%d", i))
+		}
+	})
+
+	// the same controls stated in chord text ({bpm=,mtr=,key=,vel=,txt=...}) and converted by `crd text conv degree`:
+	// what crd prints for a setting must read back as the setting (a meter of 3/1 printed as 3 is still 3/1)
+	c.Stream("viatext", c.N(800, 15000), func(i int, r *rand.Rand) {
+		p := model.RandPiece(r, model.GenOpts{MinLen: 2, MaxLen: 8, RestProb: 0.25, SettingProb: 0.6, TextProb: 0.3, KeyChanges: true, BassProb: 0.3, MaxDeg: 7, SimpleOnly: true, TextSafe: true})
+		// whole-note meters on purpose: crd prints N/1 as the bare number N
+		for j := range p.Inst {
+			if p.Inst[j].Meter != nil && r.Intn(3) == 0 {
+				p.Inst[j].Meter.Den = 1
+			}
+		}
+		chords := 0
+		for _, in := range p.Inst {
+			if in.Chord != nil {
+				chords++
+			}
+		}
+		// (a text of rests only has no notation and is refused by text conv: pinned by an existing test)
+		if _, ok := p.DegreeTextPiece(model.TextOpts{}); !ok || chords == 0 {
+			c.Count("skipped", 1)
+			return
+		}
+		f := model.Flags{Track: 1 + r.Intn(2)}
+		if !p.Effective(f).AllInRange() || !p.TotalBelow(960, 1<<28) {
+			c.Count("skipped", 1)
+			return
+		}
+		if judgeControls(c, "viatext", i, p, f, writeOpts{viaText: true}, getVel(), "") {
+			c.Nontrivial(fmt.Sprintf("viatext%d", i))
+		}
+	})
+
 	// grid: 28 keys x 16 flag subsets; the second instance repeats settings so that "first instance only" is visible
 	keys := theory.Supported()
 	c.Stream("flags", len(keys)*16, func(i int, r *rand.Rand) {
